@@ -135,8 +135,26 @@ func buildIncremental(j *Job, todo []*Obligation, timeoutMs int) string {
 func buildSingle(j *Job, o *Obligation, timeoutMs int, withModel bool, extra ...*Term) string {
 	sc := NewScript()
 	sc.Raw(preamble(timeoutMs))
+	// facts assumed on a path that contradicts the obligation's path condition are irrelevant (dropping them is sound)
+	pcLits := map[int]bool{}
+	for _, l := range conjList(o.PC) {
+		pcLits[l.id] = true
+	}
 	for i := 0; i < o.NFact && i < len(j.Facts); i++ {
-		sc.Assert(j.Facts[i])
+		f := j.Facts[i]
+		if f.op == "=>" {
+			dead := false
+			for _, g := range conjList(f.args[0]) {
+				if pcLits[Not(g).id] {
+					dead = true
+					break
+				}
+			}
+			if dead {
+				continue
+			}
+		}
+		sc.Assert(f)
 	}
 	for _, e := range extra {
 		sc.Assert(e)
@@ -583,4 +601,93 @@ func collectArith(t *Term, out *[]*Term, seen map[int]bool) {
 	for _, a := range t.args {
 		collectArith(a, out, seen)
 	}
+}
+
+// ---- goal-directed slicing (sound: it only drops hypotheses) ----
+
+func termSymbols(t *Term, memo map[int]map[string]bool) map[string]bool {
+	if m, ok := memo[t.id]; ok {
+		return m
+	}
+	out := map[string]bool{}
+	if t.op == "sym" {
+		out[t.val] = true
+	} else if _, ok := TS.funs[t.op]; ok && len(t.args) > 0 {
+		out["fn:"+t.op] = true
+	}
+	for _, a := range t.args {
+		for k := range termSymbols(a, memo) {
+			out[k] = true
+		}
+	}
+	memo[t.id] = out
+	return out
+}
+
+func hubSymbol(s string) bool {
+	if strings.HasPrefix(s, "H.cell:") || strings.HasPrefix(s, "H.iter:") || strings.HasPrefix(s, "H0.cell:") {
+		return false
+	}
+	return strings.HasPrefix(s, "H0.") || strings.HasPrefix(s, "H.") || strings.HasPrefix(s, "alloc") || strings.HasPrefix(s, "fn:at.") || strings.HasPrefix(s, "fn:box.") || strings.HasPrefix(s, "fn:unbox.")
+}
+
+// buildSliced keeps the facts within `depth` symbol-sharing steps of the goal.
+func buildSliced(j *Job, o *Obligation, timeoutMs int, depth int) string {
+	memo := map[int]map[string]bool{}
+	cone := map[string]bool{}
+	for k := range termSymbols(o.Goal, memo) {
+		if !hubSymbol(k) {
+			cone[k] = true
+		}
+	}
+	n := o.NFact
+	if n > len(j.Facts) {
+		n = len(j.Facts)
+	}
+	keep := make([]bool, n)
+	for d := 0; d < depth; d++ {
+		added := map[string]bool{}
+		for i := 0; i < n; i++ {
+			if keep[i] {
+				continue
+			}
+			f := j.Facts[i]
+			body := f
+			if f.op == "=>" {
+				body = f.args[1]
+			}
+			syms := termSymbols(body, memo)
+			hit := false
+			for k := range syms {
+				if cone[k] {
+					hit = true
+					break
+				}
+			}
+			if hit {
+				keep[i] = true
+				for k := range syms {
+					if !hubSymbol(k) {
+						added[k] = true
+					}
+				}
+			}
+		}
+		if len(added) == 0 {
+			break
+		}
+		for k := range added {
+			cone[k] = true
+		}
+	}
+	sc := NewScript()
+	sc.Raw(preamble(timeoutMs))
+	for i := 0; i < n; i++ {
+		if keep[i] {
+			sc.Assert(j.Facts[i])
+		}
+	}
+	sc.Assert(And(o.PC, Not(o.Goal)))
+	sc.Raw("(check-sat)")
+	return sc.String()
 }
